@@ -322,7 +322,7 @@ def FinalBfs (E F : List (Nat × Nat)) (nbrs : List (Nat × List Nat)) (s t : Na
     DoneExc E F nbrs (fun _ => False) st
 
 theorem augment_spec {E F : List (Nat × Nat)} {nbrs : List (Nat × List Nat)} {s t k : Nat}
-    (hnb : NbOK E nbrs) (hF : FlowInv E F s t k) (hst : s ≠ t) :
+    (hnb : NbOK E nbrs) (hF : FlowInv E F s t k) :
     (augment E nbrs s t F = .panic ∧ nbrs.lookup s = none) ∨
     (∃ F' seen, augment E nbrs s t F = .ok (some F', seen) ∧ FlowInv E F' s t (k + 1)) ∨
     (∃ seen, augment E nbrs s t F = .ok (none, seen) ∧ FinalBfs E F nbrs s t seen) := by
@@ -341,6 +341,7 @@ theorem augment_spec {E F : List (Nat × Nat)} {nbrs : List (Nat × List Nat)} {
     simp only
     rcases h3 with h3 | ⟨h3, h4⟩
     · right; left
+      have hst : s ≠ t := fun hh => tree_key_ne h2.tree t h3 hh.symm
       rw [if_pos h3]
       obtain ⟨R', P', hR, hA⟩ := trace_main (E := E) (F := F) (s := s) (t := t) st.back
         (st.back.length + 1) t F [] h2.tree (Or.inr h3) (by simp) (by simp) (augInv_init hF)
@@ -349,6 +350,7 @@ theorem augment_spec {E F : List (Nat × Nat)} {nbrs : List (Nat × List Nat)} {
       exact ⟨R', st.seen, rfl, augInv_final hF hst hA⟩
     · by_cases hk : hasKey t st.back = true
       · right; left
+        have hst : s ≠ t := fun hh => tree_key_ne h2.tree t hk hh.symm
         rw [if_pos hk]
         obtain ⟨R', P', hR, hA⟩ := trace_main (E := E) (F := F) (s := s) (t := t) st.back
           (st.back.length + 1) t F [] h2.tree (Or.inr hk) (by simp) (by simp) (augInv_init hF)
@@ -364,7 +366,7 @@ theorem augment_spec {E F : List (Nat × Nat)} {nbrs : List (Nat × List Nat)} {
     `neighbors`; otherwise it returns the edges leaving the last `seen` together with a flow
     satisfying the invariant and a description of the final search. -/
 theorem cutLoop_spec {E : List (Nat × Nat)} {nbrs : List (Nat × List Nat)} {s t : Nat}
-    (hnb : NbOK E nbrs) (hst : s ≠ t) :
+    (hnb : NbOK E nbrs) :
     ∀ (fuel : Nat) (F : List (Nat × Nat)) (k : Nat), FlowInv E F s t k → E.length + 2 ≤ fuel + k →
       (cutLoop E nbrs s t fuel F = .panic ∧ nbrs.lookup s = none) ∨
       ∃ F' k' seen, cutLoop E nbrs s t fuel F =
@@ -374,10 +376,10 @@ theorem cutLoop_spec {E : List (Nat × Nat)} {nbrs : List (Nat × List Nat)} {s 
     have := hF.val_le; omega
   | fuel + 1, F, k, hF, hf => by
     unfold cutLoop
-    rcases augment_spec hnb hF hst with ⟨h1, h2⟩ | ⟨F', seen, h1, h2⟩ | ⟨seen, h1, h2⟩
+    rcases augment_spec hnb hF with ⟨h1, h2⟩ | ⟨F', seen, h1, h2⟩ | ⟨seen, h1, h2⟩
     · rw [h1]; exact Or.inl ⟨rfl, h2⟩
     · rw [h1]
-      exact cutLoop_spec hnb hst fuel F' (k + 1) h2 (by omega)
+      exact cutLoop_spec hnb fuel F' (k + 1) h2 (by omega)
     · rw [h1]
       exact Or.inr ⟨F, k, seen, rfl, hF, h2⟩
 
